@@ -154,22 +154,13 @@ def m_redefine_unreachable(v, params):
     return v["kind"] == "redefine" and "ill-scoped-program-accepted" in v["why"] and v["identifier"] not in reachable(v["twin_ast"])
 
 
-def m_redefine_odd_error(v, params):
-    # a duplicate definition is rejected, but through an error about something the *first* definition needed and that
-    # disappeared with it -- a compiler-synthesised helper (letbinding_$_n / lambda_$_n) or a stock macro ('list') --
-    # instead of "Cannot redefine"
-    msg = (v["defective"].get("err") or {}).get("msg", "")
-    return v["kind"] == "redefine" and "error-does-not-name-the-culprit" in v["why"] and \
-        (msg.startswith("no such callable") or "letbinding_$_" in msg or "lambda_$_" in msg)
-
-
 def m_unbound_erased(v, params):
     # strict dialects accept an unbound name that only occurs in a position erased before the scope check: the value of
     # a let/assign binding that is never used, or an argument that an inline function drops
     return v["kind"] == "unbound" and "ill-scoped-program-accepted" in v["why"] and erased_position(v["ast"], v["identifier"])
 
 
-MATCHERS = {"redefine_unreachable": m_redefine_unreachable, "redefine_odd_error": m_redefine_odd_error, "unbound_erased": m_unbound_erased}
+MATCHERS = {"redefine_unreachable": m_redefine_unreachable, "unbound_erased": m_unbound_erased}
 
 
 def _models(acc):
